@@ -10,8 +10,8 @@ def nontrivial(p, line):
 
 
 def run(tier, seed):
-    return pipe.run_property("C01", tier, seed, ['super', 'noise', 'hall', 'lowsym'], PROPS,
-                             {"rule": 'supercell, noise and per-setting cases; a case is non-trivial when a dataset was returned with >= 2 operations and the recorded re-description is not the identity (re-based, shifted or supercell input); distinct = distinct input cells'},
+    return pipe.run_property("C01", tier, seed, ['super', 'noise', 'hall', 'lowsym', 'pseudo'], PROPS,
+                             {"rule": 'supercell, noise, per-setting and pseudo-symmetric cases (the latter judged by C01 alone: whatever subgroup is reported, every operation must preserve the metric and map atoms onto atoms); a case is non-trivial when a dataset was returned with >= 2 operations and the recorded re-description is not the identity (re-based, shifted or supercell input); distinct = distinct input cells'},
                              nontrivial, stages=["s4"],
                              trusted=["premise validation of the generator (the generated crystal has exactly the generating group, symmetry gap >= 0.2 A) is a brute-force search in Rust, independent of moyo",
                                       "f64 rounding inside moyo is not modelled: the oracle judges the returned values in exact rational arithmetic",
